@@ -7,16 +7,19 @@
    STATUS.  FULL: to_string / str, openness, is_open cache (cache_inv for ALL histories, including
    expand_one_step: C16_cache_inv), paths, is_valid_path, find_node, replace_path, structural hash,
    key codec, trie contents, next_path (least later path; follows paths(); iteration enumerates
-   paths(); skip_children), leaves / open_leaves.
+   paths(); skip_children), leaves / open_leaves, filter(enforce_unique), is_prefix (path-wise
+   declarative spec PrefixOf; replacing an open leaf by a tree with the same label yields an
+   extension), is_potential_prefix (never out of fuel, = PotPrefix).
    PARTIAL (guard K_wide t = false, the open finding: a node with more than 28 children): every
    trie VIEW statement - keys / items / values of the root view AND of every sub-view
    (C16_trie_view_partial, C16_sub_items, C16_sub_values, C16_sub_keys), trie()[p].  The unguarded
    statements are REFUTED (C16_trie_view_refuted, C16_trie_getitem_refuted).
    C16_cache_inv_partial is kept (it is implied by C16_cache_inv).
-   NOT PROVED (models + correspondence only): filter(enforce_unique), is_prefix,
-   is_potential_prefix. *)
+   NOT PROVED: the converse reading of is_prefix as reachability ("PrefixOf t u -> u is obtained from
+   t by a SEQUENCE of open-leaf replacements"); only the per-step direction is proved
+   (C16_expand_leaf_is_prefix + reflexivity / transitivity of PrefixOf). *)
 From ISLA Require Import Tree PathFacts TreeFacts TreeOps TreeOpsFacts Cache CacheFacts Trie TrieFacts.
-From ISLA Require Import TrieMore TreeOpsMore CacheMore.
+From ISLA Require Import TrieMore TreeOpsMore CacheMore PrefixMore.
 From Coq Require Import Sorted.
 
 (* ---- strings ---- *)
@@ -175,6 +178,52 @@ Theorem C16_open_leaves : forall t,
   /\ (is_openT t = true <-> open_leaves t <> []).
 Proof. exact open_leaves_full. Qed.
 Print Assumptions C16_open_leaves.
+
+Theorem C16_filter : forall f unique t,
+  match py_filter f unique t with
+  | Ok r => (forall p s, In (p, s) r <-> subtree t p = Some s /\ f s = true)
+            /\ StronglySorted pre_lt (map fst r) /\ (unique = true -> length r <= 1)
+  | Raise e => e = RuntimeErr /\ unique = true
+               /\ 1 < length (filter (fun pt => f (snd pt)) (nodes t))
+  end.
+Proof. exact py_filter_spec. Qed.
+Print Assumptions C16_filter.
+
+(* ---- is_prefix / is_potential_prefix (proof extension, Tree/PrefixMore.v; ids ignored) ----
+   PrefixOf t u: every node of t is a node of u with the same label; a node of t that is not an open
+   leaf is not open in u and has the same number of children there (u = t with open leaves expanded).
+   PotPrefix t u: on every COMMON path the labels agree and two nodes that both have children have
+   the same number of them. *)
+Theorem C16_is_prefix : forall t, shape_ok t = true -> forall u, is_prefix_t t u = true <-> PrefixOf t u.
+Proof. exact is_prefix_spec. Qed.
+Print Assumptions C16_is_prefix.
+
+Theorem C16_expand_leaf_is_prefix : forall p t leaf r t', shape_ok t = true ->
+  subtree t p = Some leaf -> opn leaf = true -> lbl r = lbl leaf ->
+  replace_path t p r = Ok t' -> PrefixOf t t'.
+Proof. exact expand_leaf_PrefixOf. Qed.
+Print Assumptions C16_expand_leaf_is_prefix.
+
+Theorem C16_prefix_preorder : (forall t, PrefixOf t t) /\ (forall t u v, PrefixOf t u -> PrefixOf u v -> PrefixOf t v).
+Proof. exact (conj PrefixOf_refl PrefixOf_trans). Qed.
+Print Assumptions C16_prefix_preorder.
+
+Theorem C16_is_potential_prefix : forall t u, shape_ok t = true -> shape_ok u = true ->
+  exists v, is_potential_prefix t u = Some v /\ (v = true <-> PotPrefix t u).
+Proof. exact is_potential_prefix_spec. Qed.
+Print Assumptions C16_is_potential_prefix.
+
+Theorem C16_prefix_is_potential : forall t u, PrefixOf t u -> PotPrefix t u.
+Proof. exact PrefixOf_PotPrefix. Qed.
+Print Assumptions C16_prefix_is_potential.
+
+Example C16_prefix_nonvacuous :
+  let t := Node [60;97;62]%N 1 false [Node [60;98;62]%N 2 true []; Node [120]%N 3 false []] in
+  let u := Node [60;97;62]%N 7 false [Node [60;98;62]%N 8 false [Node [121]%N 9 false []]; Node [120]%N 5 false []] in
+  shape_ok t = true /\ shape_ok u = true /\ is_prefix_t t u = true /\ is_prefix_t u t = false
+  /\ is_potential_prefix t u = Some true /\ is_potential_prefix u t = Some true.
+Proof. exact prefix_nonvacuous. Qed.
+Print Assumptions C16_prefix_nonvacuous.
 
 (* ---- replace_path ---- *)
 Theorem C16_replace_frame : forall p t r t', replace_path t p r = Ok t' ->
